@@ -17,6 +17,7 @@ function on every leg; the driver/tap records the response as sent.  Monitors:
 """
 
 import asyncio
+import collections.abc
 import datetime
 import http
 import io
@@ -24,6 +25,7 @@ import json
 import logging
 import os
 import time
+import types
 import warnings
 
 import falcon
@@ -601,6 +603,69 @@ def mw_step(idx, stage, resp):
 MW_SHAPES = [('request', 'resource', 'response'), ('request', 'response'), ('response',), ('request', 'resource')]
 
 
+def ops_at(site):
+    """Scripted application-logic steps for one site: (component index, stage) of the middleware stack or 'responder'."""
+    out = []
+    for op in CUR['script'].get('ops') or ():
+        where = op[0] if op[0] == 'responder' else (op[0][0], op[0][1])
+        if where == site:
+            out.append(op)
+    return out
+
+
+def plain_op(resp, op):
+    """Every op except render_body (whose call is sync on WSGI and awaited on ASGI)."""
+    kind = op[1]
+    if kind == 'set_status':
+        resp.status = val(op[2])
+    elif kind == 'set_header':
+        resp.set_header(op[2], op[3])
+    elif kind == 'set_media':
+        resp.media = json.loads(json.dumps(op[2]))
+    elif kind == 'set_text':
+        resp.text = op[2]
+    elif kind == 'set_data':
+        resp.data = lat(op[2])
+    elif kind == 'set_content_type':
+        resp.content_type = op[2]
+    elif kind == 'mutate_media':
+        m = resp.media                      # in place: no new assignment to resp.media
+        if isinstance(m, dict):
+            m['mutated'] = len(m)
+        elif isinstance(m, list):
+            m.append('mutated')
+    else:
+        raise AssertionError(op)
+
+
+def note_render(site, data=None, ex=None):
+    trace('render', list(site) if site != 'responder' else site, data if ex is None else rec_exc(ex))
+
+
+def run_ops_sync(site, resp):
+    for op in ops_at(site):
+        if op[1] == 'render_body':
+            try:
+                note_render(site, resp.render_body())
+            except Exception as ex:  # noqa
+                note_render(site, ex=ex)
+                raise
+        else:
+            plain_op(resp, op)
+
+
+async def run_ops_async(site, resp):
+    for op in ops_at(site):
+        if op[1] == 'render_body':
+            try:
+                note_render(site, await resp.render_body())
+            except Exception as ex:  # noqa
+                note_render(site, ex=ex)
+                raise
+        else:
+            plain_op(resp, op)
+
+
 def make_middleware(asgi):
     comps = []
     for idx, shape in enumerate(MW_SHAPES):
@@ -608,37 +673,46 @@ def make_middleware(asgi):
 
         def on_request(req, resp, idx=idx):
             trace('req', req.method, req.path, idx)
-            mw_step(idx, 'request', resp)
 
         def on_resource(req, resp, resource, params, idx=idx):
             trace('rsrc', type(resource).__name__[1:], conv(params), req.uri_template, idx)
-            mw_step(idx, 'resource', resp)
 
         def on_response(req, resp, resource, req_succeeded, idx=idx):
             trace('resp', resource is not None, bool(req_succeeded), resp.status_code, idx)
             resp.set_header('X-Mw-%d' % idx, '%d' % len(CUR['cap'].get('trace', ())))
             if idx == 0:
                 resp.set_header('X-Trace', '%d' % len(CUR['cap'].get('trace', ())))
-            mw_step(idx, 'response', resp)
 
         if asgi:
-            async def process_request(self, req, resp, f=on_request):
+            async def process_request(self, req, resp, f=on_request, idx=idx):
                 f(req, resp)
+                await run_ops_async((idx, 'request'), resp)
+                mw_step(idx, 'request', resp)
 
-            async def process_resource(self, req, resp, resource, params, f=on_resource):
+            async def process_resource(self, req, resp, resource, params, f=on_resource, idx=idx):
                 f(req, resp, resource, params)
+                await run_ops_async((idx, 'resource'), resp)
+                mw_step(idx, 'resource', resp)
 
-            async def process_response(self, req, resp, resource, req_succeeded, f=on_response):
+            async def process_response(self, req, resp, resource, req_succeeded, f=on_response, idx=idx):
                 f(req, resp, resource, req_succeeded)
+                await run_ops_async((idx, 'response'), resp)
+                mw_step(idx, 'response', resp)
         else:
-            def process_request(self, req, resp, f=on_request):
+            def process_request(self, req, resp, f=on_request, idx=idx):
                 f(req, resp)
+                run_ops_sync((idx, 'request'), resp)
+                mw_step(idx, 'request', resp)
 
-            def process_resource(self, req, resp, resource, params, f=on_resource):
+            def process_resource(self, req, resp, resource, params, f=on_resource, idx=idx):
                 f(req, resp, resource, params)
+                run_ops_sync((idx, 'resource'), resp)
+                mw_step(idx, 'resource', resp)
 
-            def process_response(self, req, resp, resource, req_succeeded, f=on_response):
+            def process_response(self, req, resp, resource, req_succeeded, f=on_response, idx=idx):
                 f(req, resp, resource, req_succeeded)
+                run_ops_sync((idx, 'response'), resp)
+                mw_step(idx, 'response', resp)
         if 'request' in shape:
             ns['process_request'] = process_request
         if 'resource' in shape:
@@ -670,6 +744,7 @@ def _w_responder(req, resp, **params):
             req.get_media()
     apply_pre(resp, s)
     set_stream_sync(resp, s['body'])
+    run_ops_sync('responder', resp)
     if s['raise'] is not None:
         do_raise(s)
 
@@ -695,6 +770,7 @@ async def _a_responder(req, resp, **params):
             await req.get_media()
     apply_pre(resp, s)
     set_stream_async(resp, s['body'])
+    await run_ops_async('responder', resp)
     if s['raise'] is not None:
         do_raise(s)
 
@@ -847,6 +923,59 @@ def leg_a(req):
     return cap
 
 
+class PlainMapping(collections.abc.Mapping):
+    """A Mapping that is not a dict (the simulators document 'a dict-like (Mapping) object')."""
+
+    def __init__(self, pairs):
+        self._d = dict(pairs)
+
+    def __getitem__(self, k):
+        return self._d[k]
+
+    def __iter__(self):
+        return iter(self._d)
+
+    def __len__(self):
+        return len(self._d)
+
+
+def shape_headers(h, form):
+    """The same header pairs in another documented argument form: 'a dict-like (Mapping) object, or an iterable yielding
+    a series of two-member (name, value) iterables' - one-shot iterables included.  Built afresh for every call."""
+    if h is None or not form:
+        return h
+    pairs = list(h.items()) if isinstance(h, dict) else [tuple(x) for x in h]
+    unique = len({k for k, _ in pairs}) == len(pairs)
+    if form == 'iter':
+        return iter(pairs)
+    if form == 'gen':
+        return ((k, v) for k, v in pairs)
+    if form == 'zip':
+        return zip([k for k, _ in pairs], [v for _, v in pairs])
+    if form == 'map':
+        return map(list, pairs)
+    if form == 'tuple':
+        return tuple(pairs)
+    if form == 'mappingproxy' and unique:
+        return types.MappingProxyType(dict(pairs))
+    if form == 'mapping' and unique:
+        return PlainMapping(pairs)
+    return h
+
+
+def materialize(kw, st):
+    """JSON-able kwargs -> the objects actually handed to simulate_request for this call."""
+    st = st or {}
+    out = dict(kw)
+    if 'headers' in out:
+        out['headers'] = shape_headers(out['headers'], st.get('headers_form'))
+    if st.get('mapping_args'):
+        for k in ('cookies', 'params'):
+            if isinstance(out.get(k), dict):
+                out[k] = types.MappingProxyType(out[k]) if st['mapping_args'] == 'mappingproxy' else PlainMapping(out[k].items())
+    return out
+
+
 def leg_sim(req, asgi):
     """simulate_request leg; returns cap or None when not expressible."""
     kw, why = M.sim_kwargs(req, DEFAULT_UA)
@@ -863,6 +992,9 @@ def leg_sim(req, asgi):
         cap['style'].append('params-dict')
     if isinstance(kw.get('port'), str):
         cap['style'].append('port-str')
+    hf = (req.get('sim') or {}).get('headers_form')
+    if hf:
+        cap['style'].append('headers-' + ('one-shot' if hf in ('iter', 'gen', 'zip', 'map') else hf))
     if isinstance(kw.get('body'), str):
         cap['style'].append('body-str')
     hv = list(kw['headers'].values()) if isinstance(kw['headers'], dict) else [v for _, v in kw['headers']]
@@ -876,10 +1008,10 @@ def leg_sim(req, asgi):
     result = None
     try:
         if asgi:
-            result = testing.simulate_request(atap, **kw)
+            result = testing.simulate_request(atap, **materialize(kw, req.get('sim')))
         else:
             fw = W.FileWrapper if req['script']['file_wrapper'] else None
-            result = testing.simulate_request(wtap, wsgierrors=io.StringIO(), file_wrapper=fw, **kw)
+            result = testing.simulate_request(wtap, wsgierrors=io.StringIO(), file_wrapper=fw, **materialize(kw, req.get('sim')))
     except Exception as ex:  # noqa
         sim_exception(cap, asgi, ex)
     finally:
@@ -945,8 +1077,13 @@ def history_requests(hist):
             kw['headers'] = None if step['headers'] is None else dict(step['headers'])
         else:
             kw.pop('headers', None)
+        req['_headers_form'] = step.get('headers_form')
         out.append((req, kw))
     return out
+
+
+def step_style(hist, req):
+    return {'headers_form': req.get('_headers_form')}
 
 
 def run_history(rec, hist):
@@ -960,7 +1097,13 @@ def run_history(rec, hist):
     defaults = hist['defaults']
 
     def mkdefaults():
-        return None if defaults is None else dict(defaults)
+        if defaults is None:
+            return None
+        if hist.get('defaults_form') == 'mappingproxy':
+            return types.MappingProxyType(dict(defaults))
+        if hist.get('defaults_form') == 'mapping':
+            return PlainMapping(defaults.items())
+        return dict(defaults)
 
     cw = testing.TestClient(wtap, headers=mkdefaults())
     ca = testing.TestClient(atap, headers=mkdefaults())
@@ -972,7 +1115,7 @@ def run_history(rec, hist):
             result = None
             try:
                 extra = {} if asgi else {'wsgierrors': io.StringIO()}
-                result = client.simulate_request(**extra, **kw)
+                result = client.simulate_request(**extra, **materialize(kw, step_style(hist, req)))
             except Exception as ex:  # noqa
                 sim_exception(cap, asgi, ex)
             finally:
@@ -988,7 +1131,7 @@ def run_history(rec, hist):
                 cap.update({'leg': 'CA', 'kwargs': dict(kw), 'escaped': None, 'problems': []})
                 result = None
                 try:
-                    result = await conductor.simulate_request(**kw)
+                    result = await conductor.simulate_request(**materialize(kw, step_style(hist, req)))
                 except Exception as ex:  # noqa
                     sim_exception(cap, True, ex)
                 sim_finish(cap, hold, True, result)
@@ -1503,6 +1646,8 @@ CLASS_FLOORS = ['cls.path-pct-utf8', 'cls.path-invalid-utf8', 'cls.path-trailing
                 'resp.body.stream.set_stream', 'read.read', 'read.readn', 'read.iter', 'read.media', 'read.multipart',
                 'fam.E6.sim-style', 'fam.E6.sim-query-style', 'sim.style.inline-query', 'sim.style.inline-query-with-qmark',
                 'sim.style.params-dict', 'fam.E6.sim-ows', 'sim.style.ows-header-value', 'sim.style.none-header-value',
+                'fam.E8.ops-single', 'fam.E8.render-then-change', 'fam.E8.preset-x-mode', 'fam.E6.sim-header-forms',
+                'sim.style.headers-one-shot', 'sim.style.headers-mapping', 'sim.style.headers-mappingproxy', 'sim.style.headers-tuple',
                 'fam.E3.fwd-kinds', 'fam.E6.sim-arg-forms', 'sim.style.port-str', 'sim.style.body-str',
                 'fam.E7.middleware', 'mw.mode.dependent', 'mw.short-circuit.0.request', 'mw.short-circuit.1.request',
                 'mw.short-circuit.3.request', 'mw.short-circuit.0.resource', 'mw.fault.request.http', 'mw.fault.resource.exc',
